@@ -383,6 +383,19 @@ def _thunk_chain(vals, v):
              "oracle": {"oracle": "error_expected"}}]
 
 
+@adapter("fmt_g")
+def _fmt_g(vals, v):
+    """precision from the counterexample (first usize), every value class of the harness plus values that
+    force the exponent form, with and without '#'"""
+    prec = min(u(vals, 0), 70000)
+    cases = []
+    for val in ("0.5", "7.25", "-123.5", "654321.0", "1e10", "1e-7", "0"):
+        for flag in ("", "#"):
+            for g in ("g", "G"):
+                cases.append({"source": 'std.length("%%%s.%d%s" %% [%s])' % (flag, prec, g, val), "oracle": {"oracle": "no_crash"}})
+    return cases
+
+
 @adapter("crop")
 def _crop(vals, v):
     """every small crop size (and the counterexample's, clipped) on a run-time error with a 12-frame trace"""
